@@ -2,6 +2,7 @@ package sym
 
 import (
 	"fmt"
+	"strings"
 	"go/constant"
 	"go/token"
 	"go/types"
@@ -181,17 +182,28 @@ func (ex *Exec) binop(op token.Token, t types.Type, x, y Value) Value {
 	panic(fmt.Sprintf("binop %v on %T", op, x))
 }
 
-func (ex *Exec) strConcat(x, y Value) Value {
-	xs, xo := x.(*SymStr)
-	ys, yo := y.(*SymStr)
-	if (xo && xs.Opaque) || (yo && ys.Opaque) {
-		note := ""
-		if xo && xs.Opaque {
-			note = xs.Note
-		} else {
-			note = ys.Note
+func segsOf(v Value) []Value {
+	if s, ok := v.(*SymStr); ok && s.Opaque {
+		if s.Segs == nil {
+			return []Value{nil}
 		}
-		return &SymStr{Opaque: true, Note: note}
+		return s.Segs
+	}
+	if strLen(v) == 0 {
+		return nil
+	}
+	return []Value{v}
+}
+
+func (ex *Exec) strConcat(x, y Value) Value {
+	if isOpaque(x) || isOpaque(y) {
+		note := ""
+		if isOpaque(x) {
+			note = x.(*SymStr).Note
+		} else {
+			note = y.(*SymStr).Note
+		}
+		return &SymStr{Opaque: true, Note: note, Segs: append(append([]Value{}, segsOf(x)...), segsOf(y)...)}
 	}
 	if a, ok := x.(string); ok {
 		if b, ok := y.(string); ok {
@@ -200,6 +212,29 @@ func (ex *Exec) strConcat(x, y Value) Value {
 	}
 	b := append(append([]*smt.Term{}, strBytes(x)...), strBytes(y)...)
 	return mkStr(b)
+}
+
+// knownText renders an opaque string with its unknown parts shown as "<?>";
+// known symbolic bytes are shown as '?' unless they are constants.
+func knownText(v Value) string {
+	var sb strings.Builder
+	for _, seg := range segsOf(v) {
+		switch t := seg.(type) {
+		case nil:
+			sb.WriteString("<?>")
+		case string:
+			sb.WriteString(t)
+		case *SymStr:
+			for _, b := range t.B {
+				if b.IsConst() {
+					sb.WriteByte(byte(b.C))
+				} else {
+					sb.WriteByte('?')
+				}
+			}
+		}
+	}
+	return sb.String()
 }
 
 // strLess is byte-wise lexicographic x < y as a single term (no forking).
